@@ -69,12 +69,12 @@ func (info ReportingMTAInfo) WriteTo(utf8 bool, w io.Writer) error {
 	h.Add("Reporting-MTA", "dns; "+reportingMTA)
 
 	if info.ReceivedFromMTA != "" {
+		// The field is optional and the name is what the client said in
+		// EHLO: anything. Better no field than no report.
 		receivedFromMTA, err := dns.SelectIDNA(utf8, info.ReceivedFromMTA)
-		if err != nil {
-			return fmt.Errorf("dsn: cannot convert Received-From-MTA to a suitable representation: %w", err)
+		if err == nil {
+			h.Add("Received-From-MTA", "dns; "+receivedFromMTA)
 		}
-
-		h.Add("Received-From-MTA", "dns; "+receivedFromMTA)
 	}
 
 	if info.XSender != "" {
